@@ -39,6 +39,7 @@ Definition finishing (p : wpc) : bool := match p with WFinal | WDead => true | _
 Definition count_exit_ev (l : list event) : nat := length (filter (fun e => match ev_kind e with KExit => true | _ => false end) l).
 Definition count_exit_res (r : list (nat * batch)) : nat := length (filter (fun x => match snd x with RExit => true | _ => false end) r).
 Arguments count_exit_ev : simpl never.
+Arguments count_exit_res : simpl never.
 
 Record InvI (c : cfg) (s : st) : Prop := {
   n_len : length (slots s) = njobs c;
@@ -53,6 +54,7 @@ Record InvI (c : cfg) (s : st) : Prop := {
       (exited sl = true -> has_exit c = true /\ 0 < nexec sl /\ finishing (pc sl) = true) /\
       (finishing (pc sl) = true -> has_exit c = true -> 0 < nexec sl -> exited sl = true) /\
       (pc sl = WExit -> has_exit c = true /\ 0 < nexec sl) /\
+      (match pc sl with WInit _ => init_done sl = false /\ has_init c = true | _ => True end) /\
       (forall i, i < inst sl -> final_shape c (proj w i (evlog s))) /\
       (forall i, inst sl < i -> proj w i (evlog s) = []);
   n_none : forall w i, nth_error (slots s) w = None -> proj w i (evlog s) = [];
@@ -67,6 +69,8 @@ Lemma count_exit_ev_snoc l e : count_exit_ev (l ++ [e]) = count_exit_ev l + matc
 Proof. unfold count_exit_ev. rewrite filter_app, app_length. simpl. destruct (ev_kind e); reflexivity. Qed.
 Lemma count_exit_res_snoc r x : count_exit_res (r ++ [x]) = count_exit_res r + match snd x with RExit => 1 | _ => 0 end.
 Proof. unfold count_exit_res. rewrite filter_app, app_length. simpl. destruct (snd x); reflexivity. Qed.
+Lemma count_exit_res_cons x r : count_exit_res (x :: r) = match snd x with RExit => 1 | _ => 0 end + count_exit_res r.
+Proof. unfold count_exit_res. simpl. destruct (snd x); reflexivity. Qed.
 Lemma repeat_snoc {A} (x : A) n : repeat x n ++ [x] = repeat x (S n).
 Proof. induction n; simpl; [reflexivity|]. rewrite IHn. reflexivity. Qed.
 
@@ -74,6 +78,41 @@ Ltac proj_simpl :=
   repeat (rewrite proj_snoc);
   repeat first [ rewrite of_inst_same | rewrite of_inst_other by (first [left; congruence | right; lia]) ];
   rewrite ?app_nil_r.
+
+Lemma dead_final c sl :
+  pc sl = WDead ->
+  (init_done sl = true -> has_init c = true /\ (0 < nexec sl \/ running (pc sl) = true)) ->
+  (has_init c = true -> init_done sl = false -> nexec sl = 0 /\ match pc sl with WRun _ _ => False | _ => True end) ->
+  (exited sl = true -> has_exit c = true /\ 0 < nexec sl /\ finishing (pc sl) = true) ->
+  (finishing (pc sl) = true -> has_exit c = true -> 0 < nexec sl -> exited sl = true) ->
+  final_shape c (shape sl).
+Proof.
+  intros Hp Hi1 Hi2 He1 He2. unfold final_shape, shape, done_tasks. rewrite Hp in *. cbn in *.
+  destruct (Nat.eq_dec (nexec sl) 0) as [E0|E0].
+  - left. destruct (init_done sl) eqn:Hid.
+    + destruct (Hi1 eq_refl) as [_ [H|H]]; [lia|discriminate].
+    + destruct (exited sl) eqn:Hex; [destruct (He1 eq_refl) as (_ & H & _); lia|].
+      rewrite E0. reflexivity.
+  - right. exists (nexec sl). split; [lia|]. rewrite Nat.add_0_r.
+    assert (Hid : init_done sl = has_init c).
+    { destruct (init_done sl) eqn:Hid, (has_init c) eqn:Hhi; try reflexivity.
+      - destruct (Hi1 eq_refl) as [H _]. discriminate.
+      - destruct (Hi2 eq_refl eq_refl) as [H _]. lia. }
+    assert (Hex : exited sl = has_exit c).
+    { destruct (exited sl) eqn:Hex, (has_exit c) eqn:Hhe; try reflexivity.
+      - destruct (He1 eq_refl) as [H _]. discriminate.
+      - assert (Ht : false = true) by (apply He2; [reflexivity|reflexivity|lia]). discriminate. }
+    rewrite Hid, Hex. reflexivity.
+Qed.
+
+Ltac use_facts Hi1 Hi2 He1 He2 He3 :=
+  try assumption; try discriminate; try lia; try reflexivity;
+  try (match goal with H : init_done _ = true |- _ => destruct (Hi1 H) as [?Hz [?Hy|?Hy]] end;
+       try assumption; try discriminate; try lia; try (left; lia); try (left; assumption); try (right; reflexivity));
+  try (match goal with H : exited _ = true |- _ => destruct (He1 H) as (?Hz & ?Hy & ?Hx) end;
+       try assumption; try discriminate; try lia);
+  try (match goal with H1 : has_init _ = true, H2 : init_done _ = false |- _ => destruct (Hi2 H1 H2) as [?Hz ?Hy] end;
+       try assumption; try lia; try contradiction; try exact I).
 
 Section Init.
 Variable c : cfg.
@@ -92,7 +131,144 @@ Proof.
   all: try solve [intros w1 i1 Hn1; destruct (Nat.eq_dec w w1) as [->|Hne];
                   [rewrite (nth_error_upd_same _ _ _ _ Hn) in Hn1; discriminate
                   |rewrite nth_error_upd_other in Hn1 by assumption; proj_simpl; auto]].
-  all: idtac.
-  Show.
-Admitted.
+  (* other slots / stepping slot *)
+  all: try (intros w1 sl1 Hn1; slot_split Hn w1;
+            [ destruct (Hslot _ _ Hn) as (Hq1 & Hne & Hpr & Hi1 & Hi2 & He1 & He2 & He3 & Hwi & Hpast & Hfut); cbn
+            | destruct (Hslot _ _ Hn1) as (Hq1 & Hne & Hpr & Hi1 & Hi2 & He1 & He2 & He3 & Hwi & Hpast & Hfut);
+              repeat split; try (intros i Hi); proj_simpl; auto; try (apply Hi1; assumption); try (apply Hi2; assumption);
+              try (apply He1; assumption); try (apply He3; assumption) ]).
+  (* stepping slot, steps that do not touch the log, init_done, nexec, exited: everything carries over *)
+  all: try solve [ unfold shape, done_tasks in *; rewrite ?Hp, ?Hq in *; cbn in *;
+                   repeat match goal with |- context[if ?b then _ else _] => destruct b eqn:? end; cbn;
+                   try (pose proof (Forall_inv Hq1) as Hhd; pose proof (Forall_inv_tail Hq1) as Htl; cbn in Hhd);
+                   try (destruct Hmain as [Hrem Hpend]);
+                   repeat split; try (intros i Hi); auto; try discriminate; try lia;
+                   try (apply Forall_app; split; [assumption|constructor; [cbn; auto|constructor]]);
+                   try (apply Hi1; assumption); try (apply Hi2; assumption); try (apply He1; assumption);
+                   try (apply He2; assumption); try (apply He3; assumption); try tauto ].
+  (* A/B: the endgame facts *)
+  all: try solve [ destruct (main s) eqn:Hmm; auto; intros w2 sl2 Hn2;
+                   (slot_split Hn w2; [ exfalso; destruct (Hlate _ _ Hn) as [Hd1 Hd2]; congruence | apply (Hlate _ _ Hn2) ]) ].
+  all: try solve [ destruct (main s) eqn:Hmm; auto; intros w2 sl2 Hn2;
+                   (slot_split Hn w2; [ cbn; apply (Hlate _ _ Hn) | apply (Hlate _ _ Hn2) ]) ].
+  all: try solve [ intros Hmd; specialize (Hdone Hmd); congruence ].
+  all: try solve [ intros Hmd; rewrite Hmd in Hlate; destruct (Hlate _ _ Hn) as [Hd1 Hd2]; congruence ].
+  (* C: exit results are counted once *)
+  all: try solve [ rewrite ?count_exit_ev_snoc, ?count_exit_res_snoc; cbn; rewrite ?Hr, ?count_exit_res_cons in *; cbn in *; lia ].
+  (* D: chunks still to be dispatched are non-empty *)
+  all: try solve [ destruct Hmain as [Hrem Hpend]; repeat split; auto; inversion Hrem; subst; auto ].
+  - (* pills *)
+    intros w1 sl1 Hn1. apply nth_error_map_some in Hn1. destruct Hn1 as (sl0 & Hn0 & ->).
+    destruct (Hslot _ _ Hn0) as (Hq1 & Hne & Hpr & Hi1 & Hi2 & He1 & He2 & He3 & Hwi & Hpast & Hfut). cbn.
+    repeat split; auto; try (apply Hi1; assumption); try (apply Hi2; assumption); try (apply He1; assumption);
+      try (apply He3; assumption).
+    apply Forall_app; split; [assumption|constructor; [exact I|constructor]].
+  - intros w1 i1 Hn1. apply Hnone. rewrite nth_error_map in Hn1. destruct (nth_error (slots s) w1); [discriminate|reflexivity].
+  - (* all workers joined *)
+    intros w1 sl1 Hn1. rewrite forallb_forall in Hall. specialize (Hall sl1 (nth_error_In _ _ Hn1)).
+    destruct (pc sl1); try discriminate. split; [reflexivity|]. destruct (restart sl1); [discriminate|reflexivity].
+  - (* a chunk is taken: init is due iff configured and not yet run *)
+    unfold shape, done_tasks in *. rewrite Hp, Hq in *. pose proof (Forall_inv Hq1) as Hhd. pose proof (Forall_inv_tail Hq1) as Htl. cbn in Hhd.
+    cbn in *.
+    rewrite run_init_guard_spec. destruct (has_init c) eqn:Hhi, (init_done sl) eqn:Hid; cbn;
+      repeat split; use_facts Hi1 Hi2 He1 He2 He3; try (rewrite app_nil_r; assumption).
+  - (* lethal pill *)
+    unfold shape, done_tasks in *. rewrite Hp, Hq in *. pose proof (Forall_inv_tail Hq1) as Htl.
+    cbn in *.
+    rewrite exit_pill_spec. destruct (has_exit c) eqn:Hhe; cbn; [destruct (nexec sl) eqn:Hnx|]; cbn;
+      repeat split; use_facts Hi1 Hi2 He1 He2 He3.
+  - (* lifespan reached *)
+    unfold shape, done_tasks in *. rewrite Hp in *. cbn in *.
+    assert (Hpos : has_exit c = true -> 0 < nexec sl).
+    { intros _. destruct (lifespan c) as [L|]; [|discriminate]. apply Nat.ltb_ge in Hal. lia. }
+    destruct (has_exit c) eqn:Hhe; cbn; repeat split; use_facts Hi1 Hi2 He1 He2 He3; try (apply Hpos; reflexivity).
+  - (* worker_init runs *)
+    unfold shape, done_tasks in *. rewrite Hp in *. cbn in *. destruct Hwi as [Hid Hhi].
+    destruct (Hi2 Hhi Hid) as [Hz _]. rewrite Hid, Hz in *. cbn in *.
+    assert (Hex : exited sl = false).
+    { destruct (exited sl) eqn:Hex; [destruct (He1 eq_refl) as (_ & _ & Hx); discriminate|reflexivity]. }
+    rewrite Hex in *. proj_simpl. rewrite Hpr. cbn.
+    repeat split; auto; try discriminate; try (intros i Hi; proj_simpl; auto);
+      try (rewrite app_nil_r; assumption).
+  - (* a chunk is finished *)
+    unfold shape, done_tasks in *. rewrite Hp in *. cbn in *.
+    assert (Hacc : 0 < length acc). { destruct acc; [exfalso; apply Hne; reflexivity|cbn; lia]. }
+    repeat split; use_facts Hi1 Hi2 He1 He2 He3; try (rewrite Nat.add_0_r; assumption).
+  - (* one task runs *)
+    unfold shape, done_tasks in *. rewrite Hp in *. cbn in *.
+    assert (Hex : exited sl = false).
+    { destruct (exited sl) eqn:Hex; [destruct (He1 eq_refl) as (_ & _ & Hx); discriminate|reflexivity]. }
+    rewrite Hex in *. rewrite app_nil_r in *. proj_simpl. rewrite Hpr. cbn. rewrite app_length. cbn.
+    repeat split; use_facts Hi1 Hi2 He1 He2 He3; try (intros i Hi; proj_simpl; auto).
+    all: try (intros Hx; destruct rest; destruct acc; discriminate).
+    all: try (rewrite <- app_assoc; f_equal; rewrite repeat_snoc; f_equal; lia).
+  - (* worker_exit runs *)
+    unfold shape, done_tasks in *. rewrite Hp in *. cbn in *.
+    assert (Hex : exited sl = false).
+    { destruct (exited sl) eqn:Hex; [destruct (He1 eq_refl) as (_ & _ & Hx); discriminate|reflexivity]. }
+    rewrite Hex in *. rewrite app_nil_r in *. proj_simpl. rewrite Hpr. cbn.
+    destruct (He3 eq_refl) as [Hhe Hpos].
+    repeat split; use_facts Hi1 Hi2 He1 He2 He3; try (intros i Hi; proj_simpl; auto).
+    all: try (rewrite <- app_assoc; reflexivity).
+  - (* restart: the finished predecessor has the final shape; the successor has no events *)
+    rewrite Hp in *.
+    repeat split; auto; try discriminate; try lia.
+    all: try (apply Hfut; lia).
+    all: try (intros i Hi; apply Hfut; lia).
+    all: try (intros i Hi; destruct (Nat.eq_dec i (inst sl)) as [->|Hne2]; [|apply Hpast; lia];
+              rewrite Hpr; apply dead_final; rewrite ?Hp; auto).
+Qed.
+
+
+
+
+Lemma init_InvI chunks : Forall (fun ch => ch <> []) chunks -> InvI c (init c chunks).
+Proof.
+  intros Hc. constructor; cbn; auto; try discriminate.
+  - apply repeat_length.
+  - intros w sl Hn. apply nth_error_In in Hn. apply repeat_spec in Hn. subst sl. cbn.
+    repeat split; auto; try discriminate; try (intros; lia).
+Qed.
+
+Lemma run_InvI chunks sched : Forall (fun ch => ch <> []) chunks -> InvI c (run c (init c chunks) sched).
+Proof. intros Hc. apply run_invariant; [apply init_InvI; assumption|]. intros; eapply step_InvI; eauto. Qed.
+
+(* C11: at the end of a call the event sequence of EVERY worker instance is empty, or
+   init? task+ exit? with init/exit present iff configured *)
+Theorem instance_regex chunks sched w i :
+  Forall (fun ch => ch <> []) chunks ->
+  main (run c (init c chunks) sched) = MDone ->
+  final_shape c (proj w i (evlog (run c (init c chunks) sched))).
+Proof.
+  intros Hc Hd. destruct (run_InvI chunks sched Hc) as [Hlen Hmain Hslot Hnone Hexit Hlate Hdone].
+  set (s := run c (init c chunks) sched) in *. rewrite Hd in Hlate.
+  destruct (nth_error (slots s) w) as [sl|] eqn:Hn.
+  - destruct (Hslot _ _ Hn) as (Hq1 & Hne & Hpr & Hi1 & Hi2 & He1 & He2 & He3 & Hwi & Hpast & Hfut).
+    destruct (Hlate _ _ Hn) as [Hp _].
+    destruct (lt_eq_lt_dec i (inst sl)) as [[Hlt|Heq]|Hgt].
+    + apply Hpast. assumption.
+    + subst i. rewrite Hpr. apply dead_final; auto.
+    + rewrite Hfut by assumption. left. reflexivity.
+  - rewrite Hnone by assumption. left. reflexivity.
+Qed.
+
+(* instances that have already been replaced satisfy it at any moment *)
+Theorem finished_instance_regex chunks sched w sl i :
+  Forall (fun ch => ch <> []) chunks ->
+  nth_error (slots (run c (init c chunks) sched)) w = Some sl -> i < inst sl ->
+  final_shape c (proj w i (evlog (run c (init c chunks) sched))).
+Proof.
+  intros Hc Hn Hi. destruct (run_InvI chunks sched Hc) as [_ _ Hslot _ _ _ _].
+  destruct (Hslot _ _ Hn) as (_ & _ & _ & _ & _ & _ & _ & _ & _ & Hpast & _). apply Hpast. assumption.
+Qed.
+
+(* one exit result per worker_exit invocation *)
+Theorem exit_results_match chunks sched :
+  Forall (fun ch => ch <> []) chunks ->
+  main (run c (init c chunks) sched) = MDone ->
+  exit_items (run c (init c chunks) sched) = count_exit_ev (evlog (run c (init c chunks) sched)).
+Proof.
+  intros Hc Hd. destruct (run_InvI chunks sched Hc) as [_ _ _ _ Hexit _ Hdone].
+  rewrite (Hdone Hd) in Hexit. cbn in Hexit. unfold count_exit_res in Hexit. cbn in Hexit. lia.
+Qed.
 End Init.
